@@ -43,7 +43,7 @@ type collector struct {
 	ch      chan ethtypes.Address0xHex
 	mu      sync.Mutex
 	recv    []string
-	regDone int64 // logical time after AddListener returned (0 = initial listener)
+	regDone int64        // logical time after AddListener returned (0 = initial listener)
 	react   atomic.Value // func(): what this listener does on every notification (may call back into the wallet)
 }
 
@@ -70,6 +70,7 @@ type stressResult struct {
 	listeners  int
 	deliveries int
 	mustPairs  int
+	fatal      bool
 	ops        map[string]int
 }
 
@@ -262,6 +263,7 @@ func runStress(cfg stressCfg, pool []*keyT) *stressResult {
 	case <-workersDone:
 	case <-time.After(patience(60 * time.Second)):
 		fail("deadlock: worker goroutines did not finish within 60 s", nil)
+		res.fatal = true
 		return res
 	}
 	// quiescence: with the listener running every created matching file must show up without a Refresh
